@@ -14,7 +14,9 @@ git apply $S/patch.diff || { echo "PATCH DOES NOT APPLY" | tee -a $LOG; /verif/t
 /venv/bin/python demo.py > /tmp/demo_$SID.out2 2>&1; echo "demo with the change: exit $?" | tee -a $LOG
 tail -3 /tmp/demo_$SID.out2 >> $LOG
 if [ -z "$SKIP_SUITE" ]; then
-  /venv/bin/python -m pytest -q -p no:cacheprovider -n ${NJ:-8} 2>&1 | tail -1 | tee -a $LOG
+  /venv/bin/python -m pytest -q -p no:cacheprovider -n ${NJ:-8} 2>&1 | tail -1 | tee $S/suite.log | tee -a $LOG
+elif [ -f $S/suite.log ]; then
+  cat $S/suite.log >> $LOG
 fi
 for id in "$@"; do
   echo "--- check $id (quick) on the changed tree" | tee -a $LOG
